@@ -376,5 +376,56 @@ theorem reachable_acc {tbl : List (α × α)} {s : St α} (h : Reachable tbl tru
   | init => exact acc_init tbl
   | step l _ hs ih => exact acc_step ih hs
 
+/-! ### what a `disconnect()` does not touch -/
+
+/-- the actions of `disconnect()` -/
+def isCloseLabel : Label α → Bool
+  | .closeBegin | .closeTxq | .closeActive | .closePending | .closeSet _ => true
+  | _ => false
+
+/-- what the workers hold, what was delivered or timed out, and the number of requests are not changed by them -/
+structure Kept (s s' : St α) : Prop where
+  txHold : s'.txHold = s.txHold
+  rxSet : s'.rxSet = s.rxSet
+  rxHold : s'.rxHold = s.rxHold
+  nextId : s'.nextId = s.nextId
+
+theorem stepF_close_kept {tbl : List (α × α)} (s : St α) {l : Label α} (h : isCloseLabel l = true) :
+    Kept s (stepF tbl s l) := by
+  cases l <;> simp [isCloseLabel] at h
+  · exact ⟨rfl, rfl, rfl, rfl⟩
+  · simp only [stepF]; split <;> exact ⟨rfl, rfl, rfl, rfl⟩
+  · simp only [stepF]; split <;> exact ⟨rfl, rfl, rfl, rfl⟩
+  · simp only [stepF]; split <;> exact ⟨rfl, rfl, rfl, rfl⟩
+  · exact ⟨rfl, rfl, rfl, rfl⟩
+
+theorem run_close_kept {tbl : List (α × α)} {locked : Bool} :
+    ∀ (ls : List (Label α)) (s s' : St α) (i : Nat), (∀ l ∈ ls, isCloseLabel l = true) →
+      run tbl locked s ls i = .ok s' → Kept s s' := by
+  intro ls
+  induction ls with
+  | nil => intro s s' i _ h; simp only [run] at h; cases h; exact ⟨rfl, rfl, rfl, rfl⟩
+  | cons l t ih =>
+    intro s s' i hall h
+    simp only [run] at h
+    split at h
+    · next s1 hs =>
+      have h1 : s1 = stepF tbl s l := by
+        unfold step at hs
+        split at hs
+        · cases hs; rfl
+        · cases hs
+      have k1 := stepF_close_kept (tbl := tbl) s (hall l (by simp))
+      have k2 := ih s1 s' (i + 1) (fun l' hl' => hall l' (List.mem_cons_of_mem _ hl')) h
+      rw [h1] at k2
+      exact ⟨k2.txHold.trans k1.txHold, k2.rxSet.trans k1.rxSet, k2.rxHold.trans k1.rxHold,
+        k2.nextId.trans k1.nextId⟩
+    · cases h
+
+theorem drainLabels_close (s : St α) : ∀ l ∈ drainLabels s, isCloseLabel l = true := by
+  intro l hl
+  simp only [drainLabels, List.mem_cons, List.mem_append, List.mem_flatMap, List.not_mem_nil, or_false] at hl
+  rcases hl with h | ⟨_, _, h | h⟩ | ⟨_, _, h | h⟩ | ⟨_, _, h | h⟩ <;> subst h <;> rfl
+
 end
 end Frappy.Client.Match
